@@ -168,6 +168,12 @@ def case(rec, pvl, new, text, src, wit):
     encs = {
         "noargs": (lambda m: pvl.dumps(m), lambda m: new.dumps(m)),
     }
+    # keyword arguments configure the default (PDS3) encoder on both sides
+    for kw in ({"indent": 4, "width": 40}, {"aggregation_end": False},
+               {"convert_group_to_object": False}, {"tab_replace": 0, "indent": 0},
+               {"symbol_single_quote": False, "time_trailing_z": False}):
+        encs["kwargs:" + ",".join(sorted(kw))] = (
+            lambda m, kw=kw: pvl.dumps(m, **kw), lambda m, kw=kw: new.dumps(m, **kw))
     for name, cls in (("PVL", E.PVLEncoder), ("ODL", E.ODLEncoder),
                       ("PDS3", E.PDSLabelEncoder), ("ISIS", E.ISISEncoder)):
         encs[name] = (
